@@ -312,6 +312,9 @@ func parseMsgPipelineRcptCfg(globals map[string]interface{}, nodes []config.Node
 			return nil, config.NodeErr(node, "invalid directive")
 		}
 	}
+	if len(rcpt.targets) == 0 && rcpt.rejectErr == nil {
+		return nil, fmt.Errorf("destination block without 'deliver_to', 'reroute' or 'reject', use 'reject' to reject messages")
+	}
 	return &rcpt, nil
 }
 
